@@ -175,8 +175,9 @@ def run(ctx):
                 if nviol <= 3:
                     ctx.violation(key, {"harness_cmd": [exe], "ops": [l], "impl_output": [o[:2000]]}, found_input=True,
                                   what=f"trainer-level oracle: {o[o.find('!oracle'):][:300]}")
+    ngeneral = run_general(ctx, exe, r.fork("general"), 12 if ctx.quick else 150)
     ctx.cov["configurations_trained"] = ncfg
-    ctx.cov["evaluations"] = len(cases) + ncfg
+    ctx.cov["evaluations"] = len(cases) + ncfg + ngeneral
     ctx.cov["distinct_nontrivial"] = sum(1 for it in its if it >= 2)
     ctx.sample({"op": cases[len(cases) // 2][0][:200]})
     ctx.log(f"K-C07[oracle]: {ncfg} trainer configurations, {nviol} with oracle failures")
@@ -185,6 +186,110 @@ def run(ctx):
 def untok_obj(o):
     m = re.search(r";obj=(\S+)", o)
     return c08.untok(m.group(1))
+
+
+# ----------------------------------------------------------------------------- general trainers (oracle only)
+def gen_general(r, quick):
+    """one problem, and the op lines of its configuration cross: class-specific C / per-example weights / warm start
+    (kind c), epsilon-regression (kind e), one-class (kind o)"""
+    kind = r.choice(["c", "c", "c", "e", "e", "o"])
+    n = r.range(2, 8 if quick else 12)
+    d = r.range(1, 3)
+    xs = [[float(r.range(-3, 3)) for _ in range(d)] for _ in range(n)]
+    if r.chance(1, 4) and n > 2:
+        xs[r.below(n)] = list(xs[r.below(n)])
+    weighted = 0
+    ws = [1.0] * n
+    if kind == "c":
+        ys = [float(r.below(2)) for _ in range(n)]
+        if all(y == ys[0] for y in ys):
+            ys[0] = 1.0 - ys[0]
+        p1 = 2.0 ** r.range(-3, 4)
+        p2 = p1 if r.chance(2, 5) else 2.0 ** r.range(-3, 4)
+        if r.chance(1, 2):
+            weighted = 1
+            ws = [r.choice([0.0, 0.25, 0.5, 1.0, 1.0, 2.0]) for _ in range(n)]
+    elif kind == "e":
+        ys = [r.range(-10, 10) / 2 for _ in range(n)]
+        p1 = 2.0 ** r.range(-3, 4)
+        p2 = r.choice([0.125, 0.5, 1.0])
+    else:
+        ys = [0.0] * n
+        p1 = r.choice([0.25, 0.5, 0.75])
+        p2 = 0.0
+    kern = r.choice(["lin", "lin", "rbf"])
+    gamma = r.choice([0.5, 0.125, 1.0])
+    eps = r.choice([1e-3, 2.0 ** -10, 2.0 ** -4])
+    warms = [(0, 1.0)]
+    if kind == "c":
+        warms.append((r.choice([1, 3, 10, 100000]), r.choice([1.0, 4.0, 0.25])))
+    tail = f"{weighted} {tok(p1)} {tok(p2)} {n} {d} " + " ".join(tok(v) for x in xs for v in x) + " " + \
+        " ".join(tok(y) for y in ys) + " " + " ".join(tok(w) for w in ws)
+    groups = []
+    for bias in ((0, 1) if kind == "c" else (1,)):
+        lines = []
+        for warmit, warmfac in warms:
+            for shrink in (0, 1):
+                for pre, cache in ((1, 0), (0, 0), (0, 2 * n)):
+                    lines.append(f"trn {kind} {kern} {tok(gamma)} {bias} {shrink} {pre} {cache} {tok(eps)} 100000 "
+                                 f"{warmit} {tok(warmfac)} " + tail)
+        groups.append(lines)
+    return dict(kind=kind, weighted=weighted, zero_weight=int(weighted and 0.0 in ws), eps=eps, kern=kern), groups
+
+
+def general_key(line, out):
+    t = line.split()
+    m = re.search(r"!oracle (\S+?)(?:[@(]|\s|$)", out)
+    tag = m.group(1) if m else ("exception" if out.startswith("exception") else "crash")
+    w = [c08.untok(x) for x in t[-int(t[15]):]]
+    return (f"oracle:{tag}:kind={t[1]}:warm={0 if t[10] == '0' else 1}:weighted={t[12]}:"
+            f"zeroweight={int(t[12] == '1' and 0.0 in w)}:bias={t[4]}")
+
+
+def run_general(ctx, exe, r, ngen):
+    ntr = nviol = 0
+    seen = {}
+    corpus = os.path.join(core.VERIF, "corpus", PID)
+    groups_all = []
+    if os.path.isdir(corpus):
+        for fn in sorted(os.listdir(corpus)):
+            ops = [l.strip() for l in open(os.path.join(corpus, fn)) if l.strip() and not l.startswith("#")]
+            ops = [o for o in ops if o.startswith("trn")]
+            if ops:
+                groups_all.append((dict(kind=ops[0].split()[1], weighted=0, zero_weight=0, eps=c08.untok(ops[0].split()[8]), kern="corpus"), [ops]))
+    for _ in range(ngen):
+        groups_all.append(gen_general(r, ctx.quick))
+    for info, groups in groups_all:
+        ctx.hist("general_kind", info["kind"] + ("+w" if info["weighted"] else ""))
+        for lines in groups:
+            rc, out = core.sh([exe], input="\n".join(lines) + "\n", timeout=900,
+                              env=dict(os.environ, ASAN_OPTIONS="detect_leaks=0"))
+            outs = out.splitlines()
+            ntr += len(lines)
+            bad = [(l, o) for l, o in zip(lines, outs) if "!oracle" in o or o.startswith("exception") or o == "bad-op"]
+            if rc != 0 or len(outs) < len(lines):
+                bad.append((lines[min(len(outs), len(lines) - 1)], "crash: " + out[-800:]))
+            # configuration independence: all clean runs of the same problem (shrinking, cache, precomputation, warm/cold)
+            good = [(l, o) for l, o in zip(lines, outs) if "acc=1" in o and "!oracle" not in o and ";obj=" in o]
+            if len(good) > 1:
+                objs = [untok_obj(o) for _, o in good]
+                width = c08.untok(re.search(r";width=(\S+)", good[0][1]).group(1))
+                bound = 2 * info["eps"] * width + 1e-9 * (1 + width + max(abs(x) for x in objs))
+                if max(objs) - min(objs) > bound:
+                    bad.append((good[0][0], f"!oracle objective-depends-on-configuration spread={max(objs)-min(objs)} bound={bound}"))
+            for l, o in bad:
+                key = general_key(l, o)
+                if key in seen:
+                    continue
+                seen[key] = 1
+                nviol += 1
+                ctx.count("general_oracle_failure_kinds")
+                ctx.violation(key, {"harness_cmd": [exe], "ops": [l], "impl_output": [o[:2000]]}, found_input=True,
+                              what=f"trainer-level oracle (general trainers): {o[o.find('!oracle'):][:300]} on {l[:160]}")
+    ctx.cov["general_trainings"] = ntr
+    ctx.log(f"K-C07[general trainers: class-specific C, weights, warm start, epsilon-SVR, one-class]: {ntr} trainings, "
+            f"{nviol} distinct oracle failure keys (known findings are listed, not counted as violations)")
+    return ntr
 
 
 def replay(ctx, rep):
